@@ -85,3 +85,8 @@ claim("C05", _VN_TEXT,
 claim("C06", _VN_TEXT,
       "Floating-point error is not decided; VWAP before any volume and TSI with a zero denominator are unspecified slots. Reference definitions are trusted.",
       "polynomial global value numbering against a definition table", "DESIGN.md §4 C04-C06")
+claim("C10",
+      "Decides, for every input, the invariants that are visible in the normal forms: linear identities between output fields (zero-polynomial differences), band ordering by sign analysis with inductive helper summaries, Donchian window agreement and enclosure, TR/ATR/STDEV non-negativity, the finite output domains of Supertrend/OBV/Counter by per-path case analysis, RSI and Aroon ranges by sign/interval analysis of the normal form, and rounding as a post-dominator of every formula in both drivers. 'Averages within their inputs' is reduced to equality with the convex-combination definitions plus the convexity lemma.",
+      "Not decided: [0,100] for STOCH and ADX, [-100,100] for TSI (relational facts between run-time series). Assumes well-formed candles, multiplier > 0, 0 < smoothing <= period+1; induction hypothesis on previous own readings.",
+      "value numbering (R-AFFINE) + sign/interval domain (R-SIGN/R-INTERVALS) + finite-domain case analysis (R-FINITE) + ordering rule (R-ROUND)",
+      "DESIGN.md §4 C10")
